@@ -5,9 +5,10 @@ V = os.path.dirname(os.path.dirname(os.path.abspath(__file__)))
 sys.path.insert(0, V)
 from pkv.main import RULES
 
-TB = ("Trusted: rustc's MIR construction, type checking and callee resolution; the pkv-mirdump serialiser; "
-      "mirtab's abstract semantics for the MIR constructs that occur and its callee-model table "
-      "(Try::branch, FromResidual, lossless Into, count_ones, panic entry points); ")
+TB = ("Trusted: rustc's MIR construction, type checking, const evaluation and callee resolution; the pkv-mirdump serialiser; "
+      "mirtab's abstract semantics for the MIR constructs that occur; the library's own monomorphised MIR is interpreted where "
+      "available, otherwise the callee-model table (intrinsics, panic entry points; Try::branch/FromResidual/Into as fallback, "
+      "cross-checked against the library MIR in the thorough tier); the ten safe slice shims of /verif/shims; ")
 
 LAY = ("Extracts the complete decision table of every KeyboardLayout impl (124 keys x 512 modifier sets x 2 modes, Us104Key fall-through and "
        "Modifiers predicates inlined) from type-checked MIR by value-set abstract interpretation; the table is exact because all domains are finite and all CFGs acyclic. ")
@@ -87,11 +88,12 @@ m = {
     },
     'engines': [
         {'name': 'pkv-mirdump', 'path': 'driver/', 'serves_properties': sorted(INFO), 'kind_free_text': 'rustc_private driver dumping resolved MIR + type facts of /repo as JSON (RUSTC_WORKSPACE_WRAPPER under cargo +nightly check)'},
+        {'name': 'pkv-shims', 'path': 'shims/', 'serves_properties': sorted(INFO), 'kind_free_text': 'safe index-based Rust stand-ins for the raw-pointer based core::slice APIs (iter/next/find/find_map/position/any/all/get/contains/binary_search_by), compiled by pkv-mirdump at setup and interpreted as MIR'},
         {'name': 'mirtab', 'path': 'pkv/', 'serves_properties': sorted(INFO), 'kind_free_text': 'value-set abstract interpreter over the dumped MIR extracting decision tables with span provenance; repository-specific rules on top'},
     ],
     'checks': checks,
     'not_applicable': [{'property_id': k, 'reason': v} for k, v in sorted(PENDING.items())],
-    'notes': 'Static analysis only: no code of /repo is executed by any registered command. See DESIGN.md.',
+    'notes': 'Static analysis only: no code of /repo is executed by any registered command (the C20 probe is type-checked with cargo check, never run). seeded/, seeded2/ and refactors/ hold the 72 defects and 15 behaviour-preserving refactorings the checks were tested against (DESIGN.md section 10); tools/run_seeded.py replays them on scratch copies. See DESIGN.md.',
 }
 json.dump(m, open(os.path.join(V, 'MANIFEST.json'), 'w'), indent=1)
 print('MANIFEST.json: %d checks, %d not_applicable' % (len(checks), len(PENDING)))
